@@ -167,6 +167,12 @@ def cases(tier, shard, nshards):
             for a in bnds:
                 for b in bnds:
                     yield Case("%s[%s:%s]" % (src, ls(a), ls(b)), dict(base, op="slice", a=None if a is None else str(a), b=None if b is None else str(b)))
+                    if a is not None and b is not None and abs(a) <= L + 1 and abs(b) <= L + 1:
+                        # sections whose bounds are slots: arguments fill the slots left to right
+                        meta = dict(base, op="slice", a=str(a), b=str(b), form="slots")
+                        yield Case("(_[_:_])(%s, %s, %s)" % (src, ls(a), ls(b)), meta)
+                        yield Case("(_[_:%s])(%s, %s)" % (ls(b), src, ls(a)), meta)
+                        yield Case("(_[%s:_])(%s, %s)" % (ls(a), src, ls(b)), meta)
                     if a is None or b is None or abs(a) <= 1 or abs(b) <= 1:
                         yield Case("_[%s:%s](%s)" % (ls(a), ls(b), src), dict(base, op="slice", a=None if a is None else str(a), b=None if b is None else str(b)))
             for big in (2 ** 63, -2 ** 63 - 1, 2 ** 64, 2 ** 100):
